@@ -58,7 +58,15 @@ class Parser(Emitter):
             fn = formulas.get_for(name)
         if fn is None:
             raise formulaserror.NAME
-        result['value'] = fn(*args)
+        try:
+            result['value'] = fn(*args)
+        except Exception as e:
+            # an error raised by a function is the value of the call, so that
+            # IFERROR/ISERROR and the operators see it like a returned error
+            if self.debug:
+                traceback.print_exc()
+            result['value'] = formulaserror.from_message(e)
+            e.__traceback__ = None
 
         def valsetter(new_value):
             if new_value is not None:
